@@ -61,16 +61,36 @@ class Lock:
 
 
 # --------------------------------------------------------------------------- Coq
-def coq_make(targets=None, timeout=3000):
+def gen_coqproject():
+    """_CoqProject is derived from the directory contents (every .v except Extract.v / Scratch*.v),
+    so adding a file never needs an edit of a shared list."""
+    files = []
+    for d in sorted(os.listdir(COQ)):
+        dp = os.path.join(COQ, d)
+        if not os.path.isdir(dp) or d.startswith("."):
+            continue
+        for root, _, fs in os.walk(dp):
+            for f in sorted(fs):
+                if f.endswith(".v") and f != "Extract.v" and not f.startswith("Scratch") and not f.startswith("."):
+                    files.append(os.path.relpath(os.path.join(root, f), COQ))
+    txt = "-Q . Gv\n-arg -w -arg -notation-overridden,-deprecated-hint-without-locality,-deprecated-instance-without-locality\n"
+    txt += "\n".join(sorted(files)) + "\n"
+    p = os.path.join(COQ, "_CoqProject")
+    if not os.path.exists(p) or open(p).read() != txt:
+        open(p, "w").write(txt)
+
+
+def coq_make(targets=None, timeout=3000, keep_going=False):
     """Full .vo build of the whole development (or given targets). Returns (ok, log)."""
     with Lock("coq"):
+        gen_coqproject()
         if not os.path.exists(os.path.join(COQ, "Makefile")) or \
                 os.path.getmtime(os.path.join(COQ, "Makefile")) < os.path.getmtime(os.path.join(COQ, "_CoqProject")):
             rc, out = sh("coq_makefile -f _CoqProject -o Makefile", cwd=COQ, timeout=120)
             if rc != 0:
                 return False, out
         t = " ".join(targets) if targets else ""
-        rc, out = sh("make -j16 %s" % t, cwd=COQ, timeout=timeout)
+        rc, out = sh("make -j16 %s %s" % ("-k" if keep_going else "", t), cwd=COQ, timeout=timeout)
         return rc == 0, out
 
 
@@ -219,7 +239,13 @@ class Check:
     # -- proof side
     def proof_side(self, extra_dirs=()):
         """Build all proofs, scrape Properties.v. A failure here is a broken proof obligation."""
-        ok, out = coq_make()
+        # build everything that builds (other properties' files must not mask this one), then
+        # decide on this property's own targets
+        coq_make(keep_going=True)
+        tg = [os.path.relpath(os.path.join(dp, f), COQ) + "o" for d in [self.prop] + list(extra_dirs)
+              for dp, _, fs in os.walk(os.path.join(COQ, d)) for f in fs
+              if f.endswith(".v") and f != "Extract.v" and not f.startswith("Scratch")]
+        ok, out = coq_make(targets=sorted(tg))
         if not ok:
             tail = "\n".join(out.splitlines()[-30:])
             self.log("coq build failed:\n" + tail)
